@@ -68,13 +68,15 @@ PROPS = {
                    "with an independent lexer+parser pair carrying the harness's own error listeners; a catalogue of constructed "
                    "valid/invalid scripts pins the expectation independently of the grammar code. Search, not proof.",
         level_note="The validity oracle shares the generated ANTLR grammar with the code under test (the property is stated relative to that grammar); "
-                   "the catalogue sub-check is the grammar-independent part. Running the loaded script is C06's business.",
+                   "the catalogue and constructed sub-checks (generated scripts in random layouts must load; the same with one statement line re-indented by a tab/blank mixture must be refused) are the grammar-independent part; the sequence sub-check loads several inputs in one process. Running the loaded script is C06's business.",
         rule="inputs: arbitrary bytes/strings, fragment soups, random-indentation bodies, 1-3 mutations of fixtures, fixtures split at node "
              "boundaries or random byte offsets over 1-4 readers, seeds from five classes; non-trivial = input with a syntax error that still "
              "contains a '---' body marker, or a valid mutated/split script; distinct = distinct serialised cases.",
         assumptions=["zero readers is not a split and is not generated", "a panicking independent parse counts as invalid"],
         subs=[
-            rapid("load", "TestC05Load", 6000, 60000),
+            rapid("load", "TestC05Load", 5000, 60000),
+            rapid("constructed", "TestC05Constructed", 1000, 10000),
+            rapid("sequence", "TestC05Sequence", 1500, 15000),
             enum("catalogue", "TestC05Catalogue"),
             fuzz("load", "FuzzC05", 120),
         ],
@@ -105,7 +107,11 @@ PROPS = {
         rule="history of 0-6 lines (well-formed from the C13 grammar, truncated, or fragment soup) x probe line; non-trivial = the history contains a "
              "marker-bearing line and the probe yields at least one attribute; distinct = distinct (history, probe) pairs.",
         assumptions=["runner-level comparison only for lines that can be embedded verbatim in a Yarn script (no # { } < > \\ //, no edge blanks)"],
-        subs=[rapid("pure", "TestC14Pure", 10000, 100000)],
+        subs=[
+            rapid("pure", "TestC14Pure", 10000, 100000),
+            enum("pairs", "TestC14Pairs", env=dict(quick=dict(VERIF_C14_HISTORY_ATOMS=2, VERIF_C14_PROBE_ATOMS=3),
+                                                  thorough=dict(VERIF_C14_HISTORY_ATOMS=3, VERIF_C14_PROBE_ATOMS=3))),
+        ],
     ),
     "C15": dict(
         technique="PBT + native fuzzing with a validity predicate over every result (ranges inside the text, TextForAttribute safe)",
@@ -119,6 +125,7 @@ PROPS = {
         assumptions=["length comparison of TextForAttribute is skipped when the text is not valid UTF-8"],
         subs=[
             rapid("total", "TestC15Total", 20000, 200000),
+            rapid("reused-parser", "TestC15Reused", 10000, 100000),
             fuzz("total", "FuzzC15", 120),
         ],
     ),
